@@ -24,7 +24,7 @@ func (e *Engine) Name() string         { return "reqhist" }
 func (e *Engine) Properties() []string { return []string{"C20"} }
 func (e *Engine) Level() string        { return "exploration" }
 func (e *Engine) Rule() string {
-	return "one run = one history of <=25 operations over the names a, b, c, a.b with module files in a private directory on package.path: write a module file (returns a table/string/number, returns nothing, assigns package.loaded itself, both, raises, requires other names so that chains and cycles arise), torn write (file truncated inside its do...end wrapper), delete, replace by a directory, preload from Lua or via PreloadModule, RegisterModule, package.loaded[name]=nil, require under pcall, and an injected error at an instruction inside a running loader. Every loader logs when it runs. Oracle: model of Lua 5.1 require as far as the statement fixes it (after a failed load an error or a fresh run are both accepted). The sub-mode 'exhaustive' enumerates all histories of <=3 operations over 2 names from a reduced alphabet. distinct_nontrivial = distinct histories with at least one require that ran a loader"
+	return "one run = one history of <=25 operations over the names a, b, c, a.b with module files in a private directory on package.path: write a module file (returns a table/string/number, returns nothing, assigns package.loaded itself, both, raises, requires other names so that chains and cycles arise), torn write (file truncated inside its do...end wrapper), delete, replace by a directory, preload from Lua or via PreloadModule, RegisterModule, package.loaded[name]=nil, require under pcall, and an injected error at an instruction inside a running loader. Every loader logs when it runs. Oracle: model of Lua 5.1 require as far as the statement fixes it (after a failed load an error or a fresh run are both accepted). The sub-mode 'short' samples histories of <=3 operations over 2 names from a reduced alphabet. distinct_nontrivial = distinct histories with at least one require that ran a loader"
 }
 func (e *Engine) RealComponents() []string {
 	return []string{"loRequire, package.loaders (preload and Lua file searchers), loFindFile (os.Stat), LoadFile", "LState.PreloadModule / RegisterModule", "the kernel's file system on a private directory", "VM"}
@@ -313,7 +313,7 @@ func (e *Engine) Run(t *core.Tape, cfg *core.Config, st *core.Stats) (viol *core
 		}
 		return b
 	}
-	reduced := cfg.Sub == "exhaustive"
+	reduced := cfg.Sub == "short"
 	nn := len(names)
 	if reduced {
 		nn = 2
